@@ -184,6 +184,11 @@ pub fn corpus(thorough: bool) -> Vec<Vec<u8>> {
                 if w_int(&mut b, &BigI::from_u64(v), st) && !ints.contains(&b) { ints.push(b); }
             }
         }
+        // big integers of nine and more digits (out of range for the field: both decoders must refuse, neither may panic)
+        for (shl, st) in [(64u32, IntStyle::SmallBig), (72, IntStyle::SmallBig), (64, IntStyle::LargeBig), (200, IntStyle::LargeBig)] {
+            let mut b = vec![];
+            if w_int(&mut b, &BigI::from_u64_shl(1, shl), st) { ints.push(b); }
+        }
         for oi in &ints {
             for ou in &ints {
                 let mut inner = vec![1u8];
